@@ -147,7 +147,7 @@ impl Property for C11 {
         seg_strategy().prop_map(|pts| Case { pts }).boxed()
     }
     fn quota(tier: Tier) -> u64 {
-        tier.pick(800_000, 20_000_000)
+        tier.pick(8_000_000, 120_000_000)
     }
     fn rule() -> String {
         "Segment pairs: small-lattice segments (all collinear sub-cases, T junctions, shared endpoints, zero-length) mapped by exact \
